@@ -70,7 +70,7 @@ def run(ctx):
     # ---- R7 payload framing -------------------------------------------------------------------------------
     eng, ret, st, fr = ctx.root("sta_rs::Message::generate")
     at = ctx.fn("sta_rs::Message::generate").loc
-    cn = Q.calls(eng, "sta_rs::Ciphertext::new", in_fn="sta_rs::Message::generate")
+    cn = Q.calls(eng, "sta_rs::Ciphertext::new")
     if len(cn) != 1:
         ctx.add("C01.R7", "sta_rs::Message::generate#encrypt-call", False, "expected one Ciphertext::new call", at)
     else:
@@ -98,13 +98,27 @@ def run(ctx):
                 "the payload variants must be exactly {len|m, len|m . len|aux}; found %d variants with part counts %s"
                 % (len(alts), [len(a) for a in alts]), cn[0]["at"])
         # the aux chunk is appended iff aux is Some: facts at the appending call = facts at the join + {aux is Some}
-        sb = [e for e in Q.calls(eng, "adss::store_bytes", in_fn="sta_rs::Message::generate")
+        sb = [e for e in Q.calls(eng, "adss::store_bytes")          # in generate itself or in a helper it calls
               if Q.params(Q.leaves(e["argv"][0])) == {"aux.v1.0.0"}]
         if len(sb) == 1:
             f_app = Q.closure(eng, eng.facts_at(sb[0]["frame"], sb[0]["block"]))
             f_join = Q.closure(eng, eng.facts_at(cn[0]["frame"], cn[0]["block"]))
             extra = [f for f in f_app - f_join]
-            only_some = len(extra) == 1 and extra[0][0].op == "discr" and Q.path_of(extra[0][0].args[0]) == "aux" and extra[0][1:] == ("eq", 1)
+            def is_some(f):
+                return f[0].op == "discr" and Q.path_of(f[0].args[0]) == "aux" and f[1:] == ("eq", 1)
+
+            def view_of_some(f):
+                # discr(E) == k where E is a two-way view of aux (as_ref / as_deref / map of it): variant k is taken
+                # exactly when aux is Some
+                t, rel, v = f
+                if not (t.op == "discr" and rel == "eq" and t.args[0].op == "enum"):
+                    return False
+                alts = t.args[0].args[1]
+                mine = [a for a in alts if a[0] == v]
+                rest = [a for a in alts if a[0] != v]
+                return len(mine) == 1 and bool(mine[0][3]) and all(is_some(g) for g in mine[0][3]) and \
+                    all(any(g[0].op == "discr" and Q.path_of(g[0].args[0]) == "aux" and g[1:] == ("eq", 0) for g in a[3]) for a in rest)
+            only_some = bool(extra) and any(is_some(f) for f in extra) and all(is_some(f) or view_of_some(f) for f in extra)
             ctx.add("C01.R7", "sta_rs::Message::generate#aux-iff-some", only_some,
                     "the aux chunk must be written iff aux is Some; additional/other conditions: %s"
                     % [Q.show_fact(f, 3) for f in extra], sb[0]["at"], sample=[Q.show_fact(f, 3) for f in extra])
